@@ -265,13 +265,13 @@ func script(c config) string {
 	if c.Info {
 		sb.WriteString(".info(lambda: \"v\" > 10.0)")
 		if c.Resets {
-			sb.WriteString(".infoReset(lambda: \"v\" < 5.0)")
+			sb.WriteString(".infoReset(lambda: \"r\" < 5.0)") // r mirrors v: a reset may use other fields than its level
 		}
 	}
 	if c.Warn {
 		sb.WriteString(".warn(lambda: \"v\" > 20.0)")
 		if c.Resets {
-			sb.WriteString(".warnReset(lambda: \"v\" < 15.0)")
+			sb.WriteString(".warnReset(lambda: \"r\" < 15.0)")
 		}
 	}
 	if c.Crit {
@@ -397,7 +397,7 @@ func (prop) Run(x *core.Ctx) {
 		case badType:
 			return models.Fields{"v": "high", "n": int64(seqNo)}
 		}
-		return models.Fields{"v": v, "n": int64(seqNo)}
+		return models.Fields{"v": v, "r": v, "n": int64(seqNo)}
 	}
 	if c.Batch {
 		et, err := env.StartBatch("a", src, nil)
